@@ -130,6 +130,33 @@ def scen_chunk(args):
                             stats[key] = mets
                         elif stats[key] != mets:
                             errs.append(f"metrics differ across schedules: {mets} vs {stats[key]}")
+                    if len(plats) >= 2:
+                        # the distance matrix of the clustering report: rows/columns by name, values by Metrics.Distance
+                        stats["evals"] += 1
+                        rc, out, err = run_cli("codebasin", ["-R", "clustering", toml], m.root, shimdir, hs, scanorder)
+                        if rc != 0:
+                            errs.append(f"codebasin -R clustering exited {rc}: {out[-200:]}{err[-200:]}")
+                        else:
+                            rows = {}
+                            for line in out.splitlines():
+                                cells = [c.strip() for c in re.split(r"[│|]", line) if c.strip()]
+                                if cells and cells[0] in plats and len(cells) == len(plats) + 1:
+                                    rows[cells[0]] = cells[1:]
+                            okm = sorted(rows) == plats
+                            for a in plats:
+                                for j, b in enumerate(plats):
+                                    if not okm:
+                                        break
+                                    num, den = rep["dist"][a][b]
+                                    if den == 0:
+                                        okm = rows[a][j].lower() == "nan"
+                                    else:
+                                        try:
+                                            okm = abs(float(rows[a][j]) - num / den) <= 0.005 + 1e-9
+                                        except ValueError:
+                                            okm = False
+                            if not okm:
+                                errs.append(f"distance matrix {rows} != Metrics.Distance {rep['dist']}")
                     stats["evals"] += 1
                     rc, out, err = run_cli("codebasin.tree", [toml], m.root, shimdir, hs, scanorder)
                     if rc != 0:
